@@ -6,7 +6,7 @@ for n in "$@"; do
   msg=$(head -1 $f | sed 's/^# *//')
   case "$msg" in fix:*) ;; *) echo "$n: first line is not a fix: message"; exit 3;; esac
   grep -v '^#' $f > /tmp/cf_$n.diff
-  if git -C /repo apply --index --recount /tmp/cf_$n.diff 2>/tmp/cf_$n.err; then
+  if git -C /repo apply --index /tmp/cf_$n.diff 2>/tmp/cf_$n.err || git -C /repo apply --index --recount /tmp/cf_$n.diff 2>>/tmp/cf_$n.err; then
      git -C /repo commit -q -m "$msg" && echo "$n: committed $(git -C /repo rev-parse --short HEAD)"
   else
      echo "$n: DOES NOT APPLY"; head -5 /tmp/cf_$n.err
